@@ -249,6 +249,32 @@ def strip_lean_comments(src):
 FORBIDDEN = re.compile(r"\b(sorry|admit|native_decide|bv_decide|implemented_by|unsafe)\b|^\s*axiom\s|maxHeartbeats\s+0", re.M)
 
 
+def src_fingerprint():
+    """sha256 per file of /repo/src with comments and whitespace removed (doc examples and formatting do not count)"""
+    import hashlib
+    out = {}
+    for root, _, files in os.walk(os.path.join(REPO, "src")):
+        for fn in sorted(files):
+            if fn.endswith(".rs"):
+                p_ = os.path.join(root, fn)
+                t = open(p_, errors="replace").read()
+                t = re.sub(r"/\*.*?\*/", "", t, flags=re.S)
+                t = re.sub(r"//[^\n]*", "", t)
+                t = re.sub(r"\s+", "", t)
+                out[os.path.relpath(p_, REPO)] = hashlib.sha256(t.encode()).hexdigest()[:16]
+    return out
+
+
+def src_changed_files():
+    """files of /repo/src whose code differs from the tree the model was last validated against (baseline_src.json)"""
+    try:
+        base = json.load(open(os.path.join(VERIF, "baseline_src.json")))["files"]
+    except Exception:
+        return ["<no baseline>"]
+    now = src_fingerprint()
+    return sorted(f for f in set(base) | set(now) if base.get(f) != now.get(f))
+
+
 def source_audit():
     """forbidden constructs in any Lean source of the project (comments stripped)"""
     hits = []
